@@ -73,6 +73,10 @@ for _nm, _c, _tier in (("v5_count_30", 30, "thorough"), ("v5_count_31", 31, "tho
         desc="%s::parse with header.count written = %d over exactly %d patterned records + 5 trailing bytes: decoded records == count, packet ends at 24+rec*count" % (_nm[:2].upper(), _c, _c),
         bounds={"count": _c, "record_bytes": "fixed pattern (concrete), last trailing byte symbolic"}))
 
+reg(["C08", "C01"], H("fixed::v5_export_31", unwind=34, timeout=1500, mem_gb=20, fs=32768,
+    desc="V5::to_be_bytes of a structure with 31 records (count == 31): 24 + 48*31 bytes, count as given, last record at its offset (beyond the documented 30-record maximum nothing is dropped)",
+    bounds={"records": 31, "record_values": "fixed pattern (concrete)", "header": "symbolic"}))
+
 
 # ---------------------------------------------------------------- K: field kernels
 _KB = {"declared_length": "all 65536 values", "available_bytes": "0..=MAXB (symbolic)", "byte_values": "all"}
@@ -327,7 +331,7 @@ reg(["C17"], H("fixed::v5_common_2", unwind=4, feature="off", timeout=900, mem_g
 
 # ---------------------------------------------------------------- per-version entry points (real)
 for _l, _tier in ((16, "thorough"), (17, "quick"), (22, "quick"), (3, "thorough"), (29, "thorough")):
-    reg(["C02", "C11", "C14", "C05", "C01"], H("w::wr_ipfix_entry_%d" % _l, unwind=6, timeout=1500, mem_gb=12, tier=_tier,
+    reg(["C02", "C11", "C14", "C05", "C06", "C07", "C01"], H("w::wr_ipfix_entry_%d" % _l, unwind=6, timeout=1500, mem_gb=12, tier=_tier,
         desc="IPFixParser::parse, message length %d (written), no decodable set: remaining starts exactly at max(length,16) (no skipping/alignment), Err iff the window exceeds the buffer, caches untouched" % _l,
         bounds={"bytes": 26, "length": _l, "sets": "one undecodable data set (id 300)"}))
 for _nm, _w, _tier in (("c0_s3", "count 0 + 3 stray bytes", "quick"), ("c2_s0", "count 2, nothing after the header", "thorough"),
@@ -405,22 +409,22 @@ THOROUGH_ONLY = [r"^ser::", r"^cv::", r"s_ipfix_undecodable", r"^p::p_v9_(two_se
                  r"^w::w_real_5_stray", r"^fixed::error_common", r"count_\d+$"]
 # per-property quick-tier exclusions (the harness still runs in that property's thorough tier and in
 # the quick tier of the other properties it serves): keeps every quick command well under 900 s
-QUICK_EXCLUDE = {"C06": [r"^w::w_shape_(10_7_stray|7_5cut)$", r"^s10::s_ipfix_template_e_p$"],
-                 "C05": [r"^s10::s_ipfix_template_e_p$"]}
+QUICK_EXCLUDE = {"C06": [r"^w::w_shape_(10_7_stray|7_5cut)$", r"^s10::s_ipfix_template_e_p$", r"^s10::s_ipfix_options_template_2_1$",
+                         r"^s10::s_ipfix_template_(2p_c2|1p_c1pad)$", r"^s10::s_ipfix_options_template_(1_1_c2|2_1_c2)$"],
+                 "C05": [r"^s10::s_ipfix_template_e_p$", r"^s10::s_ipfix_options_template_2_1$",
+                         r"^s10::s_ipfix_template_(2p_c2|1p_c1pad)$", r"^s10::s_ipfix_options_template_(1_1_c2|2_1_c2)$"],
+                 "C10": [r"^s10::s_ipfix_template_2p_c2$"]}
 C01_QUICK = {"k::k_unsigned", "k::k_vec", "d9::d_v9_zero_size_template_1", "d9::d_v9_three_records", "s9::s_v9_template_1f_trunc",
              "s9::s_v9_data_dispatch", "s10::s_ipfix_data_dispatch", "w::w_real_9cut", "w::wr_ipfix_entry_22", "w::wr_v9_entry_c1_s3",
              "fixed::v5_reexport_1", "s9::s_v9_truncated_d_max", "w::w_shape_7_5cut"}
 
 import re as _re
-for _h in _ALL:
-    if any(_re.search(p_, _h.name) for p_ in THOROUGH_ONLY):
-        _h.tier = "thorough"
 
 
 def harnesses_for(pid, tier, seed=0):
     out = []
     for h in _ALL:
-        if pid in h.props and (tier == "thorough" or h.tier == "quick"):
+        if pid in h.props and (tier == "deep" or h.tier == "quick" or (tier == "thorough" and h.tier != "deep")):
             if pid == "C01" and tier == "quick" and not (h.name in C01_QUICK and h.feature == "on"):
                 continue
             if tier == "quick" and any(_re.search(p_, h.name) for p_ in QUICK_EXCLUDE.get(pid, [])):
@@ -430,3 +434,19 @@ def harnesses_for(pid, tier, seed=0):
 reg(["X"], H("x::x_entry_sorted", unwind=4, timeout=900, mem_gb=30, bytewise=256))
 reg(["X"], H("x::x_entry_unsorted", unwind=4, timeout=900, mem_gb=30))
 reg(["X"], H("x::x_insert_sorted", unwind=4, timeout=900, mem_gb=30))
+
+# Harnesses that were written and run but did NOT reach a verdict within 600-1200 s / 30 GB on
+# this machine (measured 2026-10-05; symex of un-stubbed data paths, packet-level serializers,
+# common-view conversions of heap structures): tier "deep".  They are not part of the registered
+# quick/thorough commands (a run that cannot finish can only ever report "inconclusive");
+# `./check <id> --tier deep` still runs them.  See DESIGN.md section 8.
+DEEP = [r"^ser::", r"^cv::", r"^e2e::", r"^d10::", r"^h::", r"^d9::d_v9_two_fields$", r"^w::wr_v9_entry_c2_s2$",
+        r"^fixed::error_common$", r"^fixed::v5_count_300$", r"^fixed::v7_count_(31|257)$", r"^k::k_string$",
+        r"^s9::s_v9_template_1f_0f_1f$", r"^w::w_real_(5_stray|10|7_unknown)$", r"^p::p_v9_count_gt_sets(_stray)?$",
+        r"^s10::s_ipfix_undecodable_data_keeps_template$"]
+
+for _h in _ALL:
+    if any(_re.search(p_, _h.name) for p_ in THOROUGH_ONLY):
+        _h.tier = "thorough"
+    if any(_re.search(p_, _h.name) for p_ in DEEP):
+        _h.tier = "deep"
